@@ -2,7 +2,8 @@ package main
 
 // C13 — no event content can crash or corrupt an action plugin (action-plugin part, which 0..49).
 //
-// GENERIC LAYER  which = index of the (first) plugin in the table of plugins.go, 0..27
+// GENERIC LAYER  which = index of the (first) plugin in the table of plugins.go, 0..27; 29 = real plugins under the REAL
+//   processor with match conditions / do_if / metric labels (procdrv.go; same expected observation (1))
 //   case = ((plugin ...) (ev ...))   plugin = (#type #config-json (maxEventSize cutOff cutField))
 //                                    ev     = 0 (time-out, delivered only to a busy action) | (#json-text size)
 //                                             | (text size [bufCap]) with a repeat-part text | a directive (real event
@@ -18,6 +19,8 @@ package main
 // TREE-LEVEL MODELS of the plugins that are pure insane-json mutations and library calls, see extra.go / extragen.go:
 //   42 rename | 43 move | 44 flatten | 45 json_encode | 46 json_decode | 47 convert_log_level |
 //   48 set_time, add_host, add_file_name, convert_date, discard, debug | 49 parse_es, cardinality (event sequences)
+// COVERAGE ROUND, exact models of coq/Model/Actions/Templates.v, see covmodels.go:
+//   51 the join templates' hand-written start / continue checks | 52 cfg.ParseFieldSelector
 
 import (
 	"encoding/hex"
@@ -25,6 +28,7 @@ import (
 	"os"
 	"runtime/pprof"
 	"sort"
+	"strconv"
 	"strings"
 	"sync"
 	"time"
@@ -44,11 +48,23 @@ var execTime = map[int]time.Duration{}
 func c13Exec(which int, cs hx.Sx) hx.Sx {
 	// a case that does not come back (a cycle in the tree makes Encode spin) cannot be recovered
 	// in-process: stop the harness quickly; the runner reports the case in progress as a violation
-	wd := time.AfterFunc(60*time.Second, func() {
+	wdTime := 60 * time.Second
+	if s := os.Getenv("C13_WATCHDOG_MS"); s != "" { // development aid
+		if ms, err := strconv.Atoi(s); err == nil {
+			wdTime = time.Duration(ms) * time.Millisecond
+		}
+	}
+	wd := time.AfterFunc(wdTime, func() {
 		fmt.Fprintln(os.Stderr, "c13: the case in progress did not finish within 60 s (hang in the code under test)")
+		if os.Getenv("C13_WATCHDOG_DUMP") != "" {
+			pprof.Lookup("goroutine").WriteTo(os.Stderr, 2)
+		}
 		os.Exit(3)
 	})
 	defer wd.Stop()
+	if which == procWhich {
+		return execProc(cs)
+	}
 	if which >= 0 && which < 30 {
 		t0 := time.Now()
 		defer func() { execTime[which] += time.Since(t0) }()
@@ -338,8 +354,13 @@ func c13Gen(c *hmain.Ctx) {
 	}
 
 	tg := time.Now()
+	genCoverage(c, g)
+	if os.Getenv("C13_TIMES") != "" {
+		fmt.Fprintf(os.Stderr, "stream-time coverage %v\n", time.Since(tg))
+	}
 	genThresholds(c, g)
 	tm := time.Now()
+	genCovModels(c)
 	genModels(c)
 	if os.Getenv("C13_TIMES") != "" {
 		fmt.Fprintf(os.Stderr, "stream-time thresholds %v models %v before %v\n", tm.Sub(tg), time.Since(tm), tg.Sub(tStart))
@@ -375,6 +396,8 @@ func c13Gen(c *hmain.Ctx) {
 		fmt.Sprintf("exercised ONLY by the generic harness (no model): %v", only))
 }
 
+var pipeExec = pipedrv.WrapExec(c13Exec)
+
 func main() {
 	// what cmd/file.d/file.d.go sets before anything is decoded (the library default is 128 nodes per
 	// decoder: with it no event below 112 nodes ever walks a pool expansion, and resetEvent's
@@ -398,5 +421,10 @@ func main() {
 				{Stream: "pipe-split", Opts: pipedrv.FamSplit, N: 20},
 			})
 		},
-		Exec: pipedrv.WrapExec(c13Exec)})
+		Exec: func(which int, cs hx.Sx) hx.Sx {
+			if which == templateWhich || which == selectorWhich { // covmodels.go (above pipedrv.PipeWhich: dispatched here)
+				return execCov(which, cs)
+			}
+			return pipeExec(which, cs)
+		}})
 }
